@@ -83,6 +83,9 @@ func registeredContent(spec, comment string) []byte {
 		return ssh.MarshalAuthorizedKey(c)
 	case spec == "dsa":
 		return []byte(dsaLine + "\n")
+	case strings.HasPrefix(spec, "opts:"):
+		// authorized_keys options in front of the key, and a comment line before it
+		return append([]byte("# registered key\nrestrict,from=\"10.0.0.0/8\",command=\"/bin/true\" "), vh.AuthorizedLine(strings.TrimPrefix(spec, "opts:"), comment)...)
 	}
 	return vh.AuthorizedLine(spec, comment)
 }
@@ -100,6 +103,9 @@ func gen(t *rapid.T) Case {
 			c.Dir[f] = rapid.SampledFrom(append(append([]string{}, oddKeys...), userKeys...)).Draw(t, "odd:"+f)
 		default:
 			c.Dir[f] = rapid.SampledFrom(userKeys).Draw(t, "key:"+f)
+			if rapid.IntRange(0, 7).Draw(t, "opts:"+f) == 3 {
+				c.Dir[f] = "opts:" + c.Dir[f]
+			}
 		}
 	}
 	c.Held = rapid.SliceOfNDistinct(rapid.SampledFrom(userKeys), 0, 3, func(s string) string { return s }).Draw(t, "held")
